@@ -99,6 +99,9 @@ pub struct Limits {
     /// budget; None = library default
     pub max_nodes: Option<usize>,
     pub max_events: Option<usize>,
+    /// feed the text through from_reader instead of from_str
+    #[serde(default)]
+    pub reader: bool,
 }
 
 pub fn options_of(l: &Limits) -> serde_saphyr::Options {
@@ -141,7 +144,8 @@ pub fn run_count(text: &str, l: &Limits) -> Result<Run, String> {
     guarded(|| {
         NODES.with(|n| n.set(0));
         ENDS.with(|n| n.set(0));
-        let (r, usage) = measure(|| serde_saphyr::from_str_with_options::<CountAny>(text, o).map(|_| ()).map_err(|e| {
+        let reader = l.reader;
+        let (r, usage) = measure(|| if reader { serde_saphyr::from_reader_with_options::<_, CountAny>(std::io::Cursor::new(text.as_bytes()), o) } else { serde_saphyr::from_str_with_options::<CountAny>(text, o) }.map(|_| ()).map_err(|e| {
             let inner = e.without_snippet();
             let dbg = format!("{:?}", inner);
             let kind: String = dbg.chars().take_while(|c| c.is_ascii_alphanumeric()).collect();
@@ -399,7 +403,8 @@ impl Prop for C08Small {
             }
         }
         let ee = rc.expanded_events as usize;
-        for lim in [1usize, ee / 2, ee, ee + 8] {
+        let enough = ee + 4 + rc.aliases as usize;
+        for lim in [1usize, ee / 2, ee, enough] {
             let l = Limits { max_events: Some(lim), ..dflt };
             let r = match run(&l, &mut v) {
                 Some(r) => r,
@@ -410,7 +415,7 @@ impl Prop for C08Small {
                 v.fail("delivered_events_exceed_max_events", format!("{}: max_events={} but {} node and end events were delivered", what, lim, r.nodes + r.ends));
                 return v;
             }
-            if lim >= ee + 8 && !r.ok && !rc.has_merge {
+            if lim >= enough && !r.ok && !rc.has_merge {
                 v.fail("rejected_within_max_events", format!("{}: expansion has {} events (+ stream / document / alias events); max_events={} rejects: {}", what, ee, lim, r.err));
                 return v;
             }
@@ -517,12 +522,13 @@ pub fn family_node(f: usize, a: usize, b: usize) -> Node {
     }
 }
 
-pub const LIMIT_CONFIGS: [(&str, Limits); 5] = [
-    ("default", Limits { total: None, per_anchor: None, depth: None, max_nodes: None, max_events: None }),
-    ("total_replayed<=1000", Limits { total: Some(1000), per_anchor: None, depth: None, max_nodes: None, max_events: None }),
-    ("per_anchor<=8", Limits { total: None, per_anchor: Some(8), depth: None, max_nodes: None, max_events: None }),
-    ("max_nodes<=5000", Limits { total: None, per_anchor: None, depth: None, max_nodes: Some(5000), max_events: None }),
-    ("max_events<=8000", Limits { total: None, per_anchor: None, depth: None, max_nodes: None, max_events: Some(8000) }),
+pub const LIMIT_CONFIGS: [(&str, Limits); 6] = [
+    ("default", Limits { total: None, per_anchor: None, depth: None, max_nodes: None, max_events: None, reader: false }),
+    ("total_replayed<=1000", Limits { total: Some(1000), per_anchor: None, depth: None, max_nodes: None, max_events: None, reader: false }),
+    ("per_anchor<=8", Limits { total: None, per_anchor: Some(8), depth: None, max_nodes: None, max_events: None, reader: false }),
+    ("max_nodes<=5000", Limits { total: None, per_anchor: None, depth: None, max_nodes: Some(5000), max_events: None, reader: false }),
+    ("max_events<=8000", Limits { total: None, per_anchor: None, depth: None, max_nodes: None, max_events: Some(8000), reader: false }),
+    ("default via from_reader", Limits { total: None, per_anchor: None, depth: None, max_nodes: None, max_events: None, reader: true }),
 ];
 
 /// heap law: peak <= HEAP_BASE + HEAP_PER_INPUT_BYTE * input + HEAP_PER_EVENT * counted events
@@ -599,7 +605,12 @@ impl Prop for C08Fam {
         let counted_events = rc.expanded_events + 4 + rc.aliases;
         let within_alias = rc.replayed_events <= total && rc.per_anchor_max <= per;
         let within_budget = rc.expanded_nodes <= max_nodes && counted_events <= max_events;
-        if within_alias && within_budget && !r.ok && !matches!(r.err_kind.as_str(), "Budget") {
+        let parser_depth = r.err.contains("recursion limit exceeded");
+        if parser_depth {
+            // saphyr-parser's own nesting limit for flow collections (256): a rejection after bounded work
+            v.classes.push("rejected_by_parser_nesting_limit");
+        }
+        if within_alias && within_budget && !r.ok && !parser_depth && !matches!(r.err_kind.as_str(), "Budget") {
             v.fail("rejected_within_limits", format!("{}: stays within every limit but is rejected: {}", what, r.err));
             return v;
         }
@@ -745,7 +756,7 @@ pub fn run(ctx: &Ctx) -> i32 {
     );
     let meta = Meta {
         level: "model_checking",
-        rule: "(a) every anchor/alias tree up to the node bound (C02 alphabet: anchors on scalars / sequences / mappings / keys, re-definitions, aliases anywhere incl. merge values; plus canonical 3+-anchor labellings) in block and flow layout: reference replay accounting vs the real library at the exact boundary of each alias limit (L, L-1, L+1, 0, L/2) and of max_nodes / max_events, visitor-call counts as observer; (b) 8 attack families on their whole parameter grid x 5 limit configurations: delivered nodes, acceptance, peak heap and allocated bytes (counting allocator) against linear laws; non-trivial = at least one alias is replayed (or nested anchors record)".into(),
+        rule: "(a) every anchor/alias tree up to the node bound (C02 alphabet: anchors on scalars / sequences / mappings / keys, re-definitions, aliases anywhere incl. merge values; plus canonical 3+-anchor labellings) in block and flow layout: reference replay accounting vs the real library at the exact boundary of each alias limit (L, L-1, L+1, 0, L/2) and of max_nodes / max_events, visitor-call counts as observer; (b) 8 attack families on their whole parameter grid x 6 limit configurations (one through from_reader): delivered nodes, acceptance, peak heap and allocated bytes (counting allocator) against linear laws; non-trivial = at least one alias is replayed (or nested anchors record)".into(),
         exhaustive: true,
         bounds: json!({"small_tree_max_nodes": full + 1, "families": FAMILIES, "limit_configurations": LIMIT_CONFIGS.iter().map(|c| c.0).collect::<Vec<_>>(), "grid_points": cases.len()}),
         assumptions: vec![
